@@ -30,6 +30,8 @@ def run(ctx):
     ctx.rule("R10.f", "scheduling implies ownership: a task scheduled for a parameter is cancellable from the moment it is scheduled -- the scheduling site registers a handle "
                       "in async_refs, or _async_ref checks on entry (before registering itself) that the link that spawned it is still live", floor=1)
     ctx.rule("R10.g", "in reactive.py a synchronously computed result stored into self._current_ supersedes any pending asynchronous evaluation (the ownership token is reset)", floor=1)
+    ctx.rule("R10.h", "an asynchronous reference is always evaluated: in _resolve_ref the scheduling of _async_ref depends on nothing but the reference being asynchronous", floor=1)
+    ctx.rule("R10.i", "every reference handed to the constructor is recorded in refs (otherwise a later plain assignment neither ends the link nor cancels the pending task)", floor=1)
     ctx.rule("R10.c", "in reactive.py every write of self._current_ after a suspension point is guarded by `self._current_task is task`, and the task is registered before the first suspension", floor=2)
     ctx.not_decided += ["the asyncio scheduler's cancellation semantics (trusted: Task.cancel() raises at the await, so no later write happens)",
                         "the final value under every schedule (follows from R10.a-d; each violated obligation yields a concrete bad schedule)"]
@@ -169,6 +171,24 @@ def run(ctx):
                  "that its link is still live: a plain value assigned before the task's first step cannot cancel it, and its result is applied afterwards" % (len(sched), g.qualname),
                  key=ASYNC_REF + "::unowned-until-started",
                  input="p.x = coro_fn; p.x = 'plain' (same loop tick); let the loop run -> p.x ends as the coroutine's result")
+
+    # ------------------------------------------------------------- R10.h
+    rr = ctx.repo.func("param.parameterized.Parameters._resolve_ref")
+    rcfg = ctx.facts.cfg(rr)
+    sch = [n for n in rcfg.live_nodes() for c in calls_in(n) if norm(c.func) == "async_executor"]
+    ctx.require(sch, "_resolve_ref no longer schedules asynchronous references")
+    for n in sch:
+        extra = [(norm(e), t) for e, t in rcfg.conditions(n) if norm(e) not in ("is_async", "deps or is_async or is_gen", "not (deps or is_async or is_gen)")
+                 and not (norm(e) in ("deps", "is_gen") )]
+        if extra:
+            ctx.fail("R10.h", rr, n, "the evaluation of an asynchronous reference is started only when %s, while the relink that follows still cancels the running one: "
+                                     "after all awaitables completed the parameter holds no result of the latest assignment" % " and ".join("%s is %s" % x for x in extra),
+                     key=rr.qualname + "::conditional-scheduling", input="assign the same coroutine function again while its evaluation is pending")
+        else:
+            ctx.ok("R10.h", rr, n, "scheduled whenever the reference is asynchronous")
+
+    from checks.shared import ctor_records_every_ref
+    ctor_records_every_ref(ctx, "R10.i")
 
     # ------------------------------------------------------------- R10.g
     for g in ctx.repo.all_funcs("param.reactive"):
